@@ -55,6 +55,10 @@ def entries():
     add('cat', 2, lambda a, b: etl.cat(a, b), S)
     add('cat(header)', 2, lambda a, b: etl.cat(a, b, header=['k', 'm', 'z']), S)
     add('stack', 2, lambda a, b: etl.stack(a, b), S)
+    add('stack(trim=False)', 2, lambda a, b: etl.stack(a, b, trim=False), S)
+    add('stack(pad=False)', 2, lambda a, b: etl.stack(a, b, pad=False), S)
+    add('cat(missing)', 2, lambda a, b: etl.cat(a, b, missing='M'), S)
+    add('annex(missing)', 2, lambda a, b: etl.annex(a, b, missing='M'), S, need=lambda k: 2 * k)
     add('annex', 2, lambda a, b: etl.annex(a, b), S, need=lambda k: 2 * k)     # k rows from each source
     add('addfield', 1, lambda a, b: etl.addfield(a, 'z', lambda r: r['n'] * 2), S)
     add('addfield(const,index)', 1, lambda a, b: etl.addfield(a, 'z', 7, index=1), S)
@@ -170,6 +174,8 @@ def entries():
     add('aggregate', 1, lambda a, b: etl.aggregate(a, 'k', len), B, K)
     add('aggregate(multi)', 1, lambda a, b: etl.aggregate(a, 'k', OrderedDict([('c', len), ('s', ('n', sum))])), B, K)
     add('aggregate(key=None)', 1, lambda a, b: etl.aggregate(a, None, len), B)
+    add('aggregate(key=None,sum)', 1, lambda a, b: etl.aggregate(a, None, sum, 'n'), B)
+    add('aggregate(key=None,list)', 1, lambda a, b: etl.aggregate(a, None, list, 'n'), B)
     add('rowreduce', 1, lambda a, b: etl.rowreduce(a, 'k', lambda k, rs: [k, sum(r.n for r in rs)], header=['k', 's']), B, K)
     add('fold', 1, lambda a, b: etl.fold(a, 'k', operator.add, 'n'), B, K)
     for f in ('groupselectfirst', 'groupselectlast'):
